@@ -36,20 +36,23 @@ TInv == IsEv("Inv") /\ Call(E.g, E.kind, E.ts)
 TRet == /\ IsEv("Ret")
         /\ IF cl[E.g].kind = "w"
            THEN \/ E.res = "nil" /\ WaitRet(E.g)
-                \/ /\ E.res = "ctx" /\ cl[E.g].st = "cancelled" /\ cl' = [cl EXCEPT ![E.g].st = "idle"]
+                \/ /\ E.res = "nil" /\ cl[E.g].st = "wokenc" /\ cl' = [cl EXCEPT ![E.g].st = "idle"]
+                   /\ UNCHANGED <<chan, pend, heap, du, cons, waiters, ncalls, procB, procD, open, enqD>>
+                \/ /\ E.res = "ctx" /\ cl[E.g].st \in {"cancelled", "wokenc"} /\ cl' = [cl EXCEPT ![E.g].st = "idle"]
                    /\ UNCHANGED <<chan, pend, heap, du, cons, waiters, ncalls, procB, procD, open, enqD>>
            ELSE \/ cl[E.g].st = "send" /\ Send(E.g)              \* the send is the last thing the call did
                 \/ cl[E.g].st = "idle" /\ UNCHANGED vars         \* it was sent earlier (silent step)
-\* the context ended: whatever the wait was doing, it may now return the context error (a wait that
-\* was already woken may still return nil: TRet accepts both for a cancelled wait that was woken)
+\* the context ended: whatever the wait was doing, it may now return the context error.  A wait whose
+\* channel is closed as well - before the cancellation or between it and the return - may return
+\* either result (Go's select chooses among ready cases): state "wokenc"
 TCancel == /\ IsEv("Cancel")
            /\ cl[E.g].kind = "w" /\ cl[E.g].st \in {"send", "parked", "woken"}
-           /\ cl' = [cl EXCEPT ![E.g].st = IF @ = "woken" THEN "woken" ELSE "cancelled"]
+           /\ cl' = [cl EXCEPT ![E.g].st = IF @ = "woken" THEN "wokenc" ELSE "cancelled"]
            /\ UNCHANGED <<chan, pend, heap, du, cons, waiters, ncalls, procB, procD, open, enqD>>
 TObs == IsEv("Obs") /\ E.v = du /\ UNCHANGED vars
 TQuiesce == /\ IsEv("Quiesce")
             /\ chan = <<>> /\ cons.pc = "take"
-            /\ \A g \in Procs : cl[g].st \notin {"send", "woken"}
+            /\ \A g \in Procs : cl[g].st \notin {"send", "woken", "wokenc"}
             /\ E.v = du
             /\ WaitLive
             /\ UNCHANGED vars
